@@ -372,6 +372,24 @@ def replay_cases(cases):
     return bad
 
 
+def merge(chk, sub):
+    """add what a part recorded in its own Check object (it ran in a thread next to the other parts) to the check's object"""
+    chk.states += sub.states
+    chk.transitions += sub.transitions
+    chk.traces += sub.traces
+    chk.evaluations += sub.evaluations
+    chk.distinct |= sub.distinct
+    chk.tlc_runs.extend(sub.tlc_runs)
+    chk.violations.extend(sub.violations)
+    for k, v in sub.known_hits.items():
+        if k in chk.known_hits:
+            chk.known_hits[k][1] += v[1]
+        else:
+            chk.known_hits[k] = v
+    for k, v in sub.extra.items():
+        chk.extra[k] = (chk.extra.get(k, 0) + v) if k == "skipped" else v
+
+
 RULE = ("Large counts: all histories of spec/LifetimeBulk.tla up to depth 3-4 (thorough 4-5) in which n sharing relatives of one container "
         "are made at once (shallow clones, same-type converts, DenseVector(size, pointer) wrappers, weak / layout / deep clones, "
         "matrices on the layout, SparseLayout objects; n in {1,2,3} for every kind and n in {255, 256, 65535, 65536, 65537, 70000} for "
